@@ -137,7 +137,15 @@ def real_arm(op, args, dim):
             return "add"
         if isinstance(e, Mul):
             v = [a for a in e.args if not isinstance(a, _coeffs_registery)]
-            return {0: "mul-coeffs", 1: "mul-one", 2: "mul-two"}.get(len(v), "mul-many")
+            if not v:
+                return "mul-coeffs"
+            if side:
+                return "mul-restrict-factors"          # multiplicative, any number of factors
+            if len(v) == 1:
+                return "mul-one"
+            if op in ("Jump", "Avg"):
+                return "mul-keep-product"              # no rewriting of a product of several functions
+            return "mul-two" if len(v) == 2 else "mul-many"      # NormalDerivative: Leibniz rule
         if isinstance(e, C.NormalDerivative):
             return "normal-derivative" if side else "atom"
         if isinstance(e, NormalVector):
@@ -295,27 +303,9 @@ def pred_of(op, args, arm, dim=3):
             return "none"
         return "none"
     if op in IFACE:
-        def ip(e):
-            if isinstance(e, Add):
-                for t in e.args:
-                    p = ip(t)
-                    if p != "none":
-                        return p
-                return "none"
-            if isinstance(e, Mul):
-                v = [a for a in e.args if not isinstance(a, _coeffs_registery)]
-                if not v:
-                    return "constant" if op in ("Dn", "Jump") else "none"
-                if len(v) == 1:
-                    return ip(v[0])
-                if op != "Dn":
-                    return "product"
-                for t in v:
-                    p = ip(t)
-                    if p != "none":
-                        return p
-            return "none"
-        return ip(args[0])
+        # no open defect of the interface operators is known (the product / constant arms were repaired:
+        # minus / plus multiplicative, jump / avg keep products, jump / Dn of constants = 0)
+        return "none"
     return "none"
 
 
